@@ -3,16 +3,16 @@ import GoldModel.Lemmas.BigStep
 Big-step rules for the combinators the statement and declaration parsers use on top of those of
 `Lemmas/BigStep.lean`: `opt`, `check`, `ifTok`, `ifEof`, `recover`, `dep`, `emit`, `reslice`,
 `prepend`.  Every rule is derived from `runP` and keeps the discipline of `Parses`/`Fails`: the run
-it describes emitted NO diagnostic.  `FailsAt g ts e` additionally records the position the error
+it describes emitted NO diagnostic.  `SFailsAt g ts e` (`FailsAt g ts` of `Lemmas/BigStep.lean` is the case `e = ts`) additionally records the position the error
 points at (what `recover` resumes from).
 -/
 namespace Gold.Gram
 open Gold Gold.Peg
 
 /-- `g` fails on `ts` at position `e`, silently -/
-def FailsAt (g : G) (ts e : List Tok) : Prop := ∃ f m, runP Γ Δ f g ts = (.err e m, [])
+def SFailsAt (g : G) (ts e : List Tok) : Prop := ∃ f m, runP Γ Δ f g ts = (.err e m, [])
 
-theorem FailsAt.fails {g : G} {ts e : List Tok} (h : FailsAt g ts e) : Fails g ts := by
+theorem SFailsAt.fails {g : G} {ts e : List Tok} (h : SFailsAt g ts e) : Fails g ts := by
   obtain ⟨f, m, h⟩ := h
   exact ⟨f, e, m, h⟩
 
@@ -61,9 +61,6 @@ theorem Fails.s_emit {fn : Tree → Option Diag} {g : G} {ts : List Tok} (h : Fa
   exact ⟨f + 1, e, m, by simp only [runP, h]⟩
 
 /-! ### `ifTok`, `ifEof` -/
-
-theorem firstReal_cons {t : Tok} {rest : List Tok} (hc : t.kind ≠ Kind.Comment) : firstReal (t :: rest) = some (t, rest) := by
-  simp [firstReal, hc]
 
 theorem Parses.s_ifTok_hit {ks : List Kind} {a b : G} {t : Tok} {rest r : List Tok} {v : Tree}
     (hc : t.kind ≠ Kind.Comment) (hk : ks.contains t.kind = true) (h : Parses a rest r v) :
@@ -115,7 +112,7 @@ theorem Parses.s_recover {m : RecMode} {g : G} {ts r : List Tok} {v : Tree} (h :
   exact ⟨f + 1, by simp only [runP, h]⟩
 
 /-- the silent mode (`match p(next) { Err(e) => (e.input, default) }`) resumes at the error position -/
-theorem Parses.s_recover_silent {g : G} {ts e : List Tok} (h : FailsAt g ts e) :
+theorem Parses.s_recover_silent {g : G} {ts e : List Tok} (h : SFailsAt g ts e) :
     Parses (.recover .silentAt g) ts e Tree.none := by
   obtain ⟨f, m, h⟩ := h
   exact ⟨f + 1, by simp only [runP, h, recoverStep, List.append_nil]⟩
@@ -165,19 +162,19 @@ theorem Parses.s_skipTo {ks : List Kind} {ts rest body : List Tok} {e : Option T
 
 /-! ### errors with their position (for `recover .silentAt` on an empty list: `( )`) -/
 
-theorem FailsAt.tok {k : Kind} {t : Tok} {r : List Tok} (h : t.kind ≠ k) (hc : t.kind ≠ Kind.Comment) :
-    FailsAt (.tok k) (t :: r) (t :: r) := by
+theorem SFailsAt.tok {k : Kind} {t : Tok} {r : List Tok} (h : t.kind ≠ k) (hc : t.kind ≠ Kind.Comment) :
+    SFailsAt (.tok k) (t :: r) (t :: r) := by
   obtain ⟨m, hm⟩ := expTok_miss (r := r) h hc
   exact ⟨1, m, by simp [runP, hm]⟩
 
-theorem FailsAt.alt {a b : G} {ts e : List Tok} (ha : FailsAt a ts e) (hb : FailsAt b ts e) : FailsAt (.alt a b) ts e := by
+theorem SFailsAt.alt {a b : G} {ts e : List Tok} (ha : SFailsAt a ts e) (hb : SFailsAt b ts e) : SFailsAt (.alt a b) ts e := by
   obtain ⟨f1, m1, h1⟩ := ha
   obtain ⟨f2, m2, h2⟩ := hb
   exact ⟨max f1 f2 + 1, m1, by
     simp only [runP, lift_err h1 (Nat.le_max_left f1 f2), lift_err h2 (Nat.le_max_right f1 f2), List.append_nil,
       Nat.lt_irrefl, gt_iff_lt, ↓reduceIte]⟩
 
-theorem FailsAt.altL {gs : List G} {ts : List Tok} (hne : gs ≠ []) (h : ∀ a ∈ gs, FailsAt a ts ts) : FailsAt (altL gs) ts ts := by
+theorem SFailsAt.altL {gs : List G} {ts : List Tok} (hne : gs ≠ []) (h : ∀ a ∈ gs, SFailsAt a ts ts) : SFailsAt (altL gs) ts ts := by
   induction gs with
   | nil => exact absurd rfl hne
   | cons a rest ih =>
@@ -185,38 +182,38 @@ theorem FailsAt.altL {gs : List G} {ts : List Tok} (hne : gs ≠ []) (h : ∀ a 
     | nil => exact h a List.mem_cons_self
     | cons b rest2 =>
       rw [altL_cons2]
-      exact FailsAt.alt (h a List.mem_cons_self) (ih (by simp) (fun x hx => h x (List.mem_cons_of_mem _ hx)))
+      exact SFailsAt.alt (h a List.mem_cons_self) (ih (by simp) (fun x hx => h x (List.mem_cons_of_mem _ hx)))
 
-theorem FailsAt.toks {ks : List Kind} {t : Tok} {r : List Tok} (hne : ks ≠ []) (h : t.kind ∉ ks) (hc : t.kind ≠ Kind.Comment) :
-    FailsAt (toks ks) (t :: r) (t :: r) := by
+theorem SFailsAt.toks {ks : List Kind} {t : Tok} {r : List Tok} (hne : ks ≠ []) (h : t.kind ∉ ks) (hc : t.kind ≠ Kind.Comment) :
+    SFailsAt (toks ks) (t :: r) (t :: r) := by
   unfold Gram.toks
-  refine FailsAt.altL (by simpa using hne) ?_
+  refine SFailsAt.altL (by simpa using hne) ?_
   intro a ha
   obtain ⟨k, hk, rfl⟩ := List.mem_map.mp ha
-  exact FailsAt.tok (fun e => h (e ▸ hk)) hc
+  exact SFailsAt.tok (fun e => h (e ▸ hk)) hc
 
-theorem FailsAt.map {fn : Tree → Tree} {g : G} {ts e : List Tok} (h : FailsAt g ts e) : FailsAt (.map fn g) ts e := by
+theorem SFailsAt.map {fn : Tree → Tree} {g : G} {ts e : List Tok} (h : SFailsAt g ts e) : SFailsAt (.map fn g) ts e := by
   obtain ⟨f, m, h⟩ := h
   exact ⟨f + 1, m, by simp only [runP, h]⟩
 
-theorem FailsAt.seq1 {a b : G} {ts e : List Tok} (ha : FailsAt a ts e) : FailsAt (.seq a b) ts e := by
+theorem SFailsAt.seq1 {a b : G} {ts e : List Tok} (ha : SFailsAt a ts e) : SFailsAt (.seq a b) ts e := by
   obtain ⟨f, m, h⟩ := ha
   exact ⟨f + 1, m, by simp only [runP, h]⟩
 
-theorem FailsAt.seq2 {a b : G} {ts r e : List Tok} {va : Tree} (ha : Parses a ts r va) (hb : FailsAt b r e) :
-    FailsAt (.seq a b) ts e := by
+theorem SFailsAt.seq2 {a b : G} {ts r e : List Tok} {va : Tree} (ha : Parses a ts r va) (hb : SFailsAt b r e) :
+    SFailsAt (.seq a b) ts e := by
   obtain ⟨f1, h1⟩ := ha
   obtain ⟨f2, m, h2⟩ := hb
   refine ⟨max f1 f2 + 1, m, ?_⟩
   simp only [runP, lift_ok h1 (Nat.le_max_left f1 f2), lift_err h2 (Nat.le_max_right f1 f2), List.append_nil]
 
-theorem FailsAt.seqL {pre : List G} {g : G} {post : List G} {ts r e : List Tok} {vs : List Tree}
-    (hpre : ParsesList pre ts r vs) (hg : FailsAt g r e) : FailsAt (seqL (pre ++ g :: post)) ts e := by
+theorem SFailsAt.seqL {pre : List G} {g : G} {post : List G} {ts r e : List Tok} {vs : List Tree}
+    (hpre : ParsesList pre ts r vs) (hg : SFailsAt g r e) : SFailsAt (seqL (pre ++ g :: post)) ts e := by
   induction hpre with
   | nil =>
     cases post with
-    | nil => exact FailsAt.map hg
-    | cons p ps => rw [List.nil_append, seqL_cons2]; exact FailsAt.map (FailsAt.seq1 hg)
+    | nil => exact SFailsAt.map hg
+    | cons p ps => rw [List.nil_append, seqL_cons2]; exact SFailsAt.map (SFailsAt.seq1 hg)
   | @cons a gs ts r r2 v vs ha hrest ih =>
     have := ih hg
     cases hp : gs ++ g :: post with
@@ -224,6 +221,6 @@ theorem FailsAt.seqL {pre : List G} {g : G} {post : List G} {ts r e : List Tok} 
     | cons x xs =>
       rw [List.cons_append, hp, seqL_cons2]
       rw [hp] at this
-      exact FailsAt.map (FailsAt.seq2 ha this)
+      exact SFailsAt.map (SFailsAt.seq2 ha this)
 
 end Gold.Gram
